@@ -67,6 +67,8 @@ type Case struct {
 	// BlobTwin: the verifier also carries a blob document whose statement has the SAME NAME as the
 	// OCI statement but this revocation action; a blob verification runs first on the same verifier
 	BlobTwin string `json:"blobTwin,omitempty"` // "" skip log enforce
+	// SignedAhead: the (authentic) signing time lies 40 minutes ahead of the verifier's clock
+	SignedAhead bool `json:"signedAhead,omitempty"`
 }
 
 var (
@@ -86,12 +88,21 @@ func chainOf(n int, subjects string) *pki.Chain {
 			if n == 2 {
 				pos = 1 // the root
 			}
+			if n == 4 {
+				// a CA that was re-certified under its own name (key roll-over): the two intermediates carry the
+				// same subject; they are two certificates all the same, each with a status of its own
+				same := pkix.Name{Country: []string{"US"}, Province: []string{"WA"}, Organization: []string{"verif"}, CommonName: "c05 rolled-over ca"}.ToRDNSequence()
+				chains[fmt.Sprint(n, "same-subject-cas")] = pki.NewChain(pki.ChainOpts{Intermediates: 2, Name: "c05 len4 s", RawSubjects: map[int]pkix.RDNSequence{1: same, 2: same}})
+			}
 			chains[fmt.Sprint(n, "expired-nonleaf")] = pki.NewChain(pki.ChainOpts{Intermediates: n - 2, Name: fmt.Sprintf("c05 len%d x", n),
 				Windows: map[int][2]time.Time{pos: {now.Add(-72 * time.Hour), now.Add(-5 * time.Minute)}}})
 		}
 	})
 	if n == 1 {
 		subjects = "" // a self-signed leaf with an empty subject is not a usable signing certificate
+	}
+	if subjects == "same-subject-cas" && n != 4 {
+		subjects = ""
 	}
 	return chains[fmt.Sprint(n)+subjects]
 }
@@ -135,6 +146,9 @@ func check(c Case) (string, string) {
 	ch := chainOf(n, variant)
 	now := time.Now()
 	signingTime := now.Add(-time.Hour).Truncate(time.Second)
+	if c.SignedAhead {
+		signingTime = now.Add(40 * time.Minute).Truncate(time.Second) // the signer's clock runs ahead of the verifier's
+	}
 	scheme, storeType := envb.SchemeX509, "ca"
 	if c.Scheme == "sa" {
 		scheme, storeType = envb.SchemeSA, "signingAuthority"
@@ -299,10 +313,18 @@ func check(c Case) (string, string) {
 			if !strings.Contains(msg, "is revoked") {
 				return "C05:aggregation:revoked-masked", fmt.Sprintf("vector %v contains Revoked but the failure is not reported as revoked: %s", c.Vector, msg)
 			}
-			namesRevoked, namesOther := false, false
+			// certificates are named by subject; a subject that a revoked and another certificate share
+			// (re-certified CA) names the revoked one
+			revokedSubjects := map[string]bool{}
 			for i, x := range c.Vector {
-				if strings.Contains(msg, fmt.Sprintf("%q", subjectOf(ch.Certs[i].Cert))) {
-					if x == int(result.ResultRevoked) {
+				if x == int(result.ResultRevoked) {
+					revokedSubjects[subjectOf(ch.Certs[i].Cert)] = true
+				}
+			}
+			namesRevoked, namesOther := false, false
+			for i := range c.Vector {
+				if sub := subjectOf(ch.Certs[i].Cert); strings.Contains(msg, fmt.Sprintf("%q", sub)) {
+					if revokedSubjects[sub] {
 						namesRevoked = true
 					} else {
 						namesOther = true
@@ -386,10 +408,13 @@ func record(rec *stats.Recorder, c Case) {
 	if c.Anchor != 0 {
 		cl = append(cl, "trust-anchor-is-not-the-root")
 	}
+	if c.SignedAhead {
+		cl = append(cl, "signing-time-ahead-of-the-verifier")
+	}
 	if c.BlobTwin != "" {
 		cl = append(cl, "blob-statement-with-same-name", "blob-twin-revocation="+c.BlobTwin)
 	}
-	rec.Case(cl, nt, stats.Fingerprint(c.Subjects, c.Cancel, c.Validity, c.Plugin, c.Ctor, fmt.Sprint(c.Vector), fmt.Sprint(c.Warm), fmt.Sprint(c.Decor), c.ValErr, c.ErrWithR, c.Iface, c.Action, c.Base, c.Scheme, c.Format, c.Anchor, c.BlobTwin), func() any { return c })
+	rec.Case(cl, nt, stats.Fingerprint(c.Subjects, c.Cancel, c.Validity, c.Plugin, c.Ctor, fmt.Sprint(c.Vector), fmt.Sprint(c.Warm), fmt.Sprint(c.Decor), c.ValErr, c.ErrWithR, c.Iface, c.Action, c.Base, c.Scheme, c.Format, c.Anchor, c.BlobTwin, c.SignedAhead), func() any { return c })
 }
 
 func evaluate(t stats.Failer, rec *stats.Recorder, c Case) {
@@ -478,7 +503,8 @@ func TestC05_Decorated(t *testing.T) {
 				c.Warm = append(c.Warm, rp.Pick(rt, "warmStatus", 1, 1, 2, 0, 3))
 			}
 		}
-		c.Subjects = rp.Pick(rt, "subjects", "", "", "", "empty-leaf")
+		c.Subjects = rp.Pick(rt, "subjects", "", "", "", "empty-leaf", "same-subject-cas")
+		c.SignedAhead = rapid.IntRange(0, 4).Draw(rt, "signedAhead") == 0
 		if c.Subjects == "" {
 			c.Validity = rp.Pick(rt, "validity", "", "", "", "expired-nonleaf")
 		}
